@@ -17,7 +17,8 @@ def fa_scenario(rng, tier, jfa=None, sessions=None):
     V = rng.normal(size=(C * D, rV))
     Dd = rng.uniform(0.3, 1.5, size=C * D)
     ns = int(rng.integers(1, 6)) if sessions is None else sessions
-    return dict(C=C, D=D, rU=rU, rV=rV, jfa=jfa, w=w, m=m, v=v, U=U, V=V, Dd=Dd, sts=[rand_stat(rng, C, D, m, v) for _ in range(ns)])
+    return dict(C=C, D=D, rU=rU, rV=rV, jfa=jfa, w=w, m=m, v=v, U=U, V=V, Dd=Dd, sts=[rand_stat(rng, C, D, m, v) for _ in range(ns)],
+                route=pick_route(rng))
 
 
 def rand_stat(rng, C, D, m, v, zero=False):
@@ -33,17 +34,60 @@ def mk_stats(sc, st):
     return gen.mk_stats(sc["C"], sc["D"], st["n"], st["f"], np.zeros((sc["C"], sc["D"])), st["t"])
 
 
+ROUTES = ("fresh", "fresh", "reuse_all", "reuse_ubm", "reuse_subspaces")
+
+
+def pick_route(rng):
+    return ROUTES[int(rng.integers(0, len(ROUTES)))]
+
+
+def _warmup(mach, sc, rng):
+    """use a machine the way a caller would before re-parameterising it: enrol and score one client (fills any cache)"""
+    C, D = sc["C"], sc["D"]
+    st = gen.mk_stats(C, D, rng.uniform(0.5, 5, C), rng.normal(size=(C, D)), np.zeros((C, D)), 7)
+    model = mach.enroll([st])
+    mach.estimate_x([st])
+    mach.estimate_ux([st])
+    mach.score(model, [st])
+
+
 def mk_machine(sc, enroll_iterations=1, em_iterations=1):
+    """Build the ISV/JFA machine of a scenario through one of the public routes (`sc["route"]`, default fresh):
+    fresh            constructed with the scenario's UBM, then U, V, D assigned;
+    reuse_all        a machine with unrelated parameters of the same shape is used (enrol, score), then every parameter is
+                     re-assigned through the public setters (UBM arrays in place, U, V, D);
+    reuse_ubm        as fresh but with another UBM, used, then the UBM's means / variances are set to the scenario's
+                     (U, V, D untouched: the same array objects);
+    reuse_subspaces  as fresh but with other U, V, D, used, then U, V, D are re-assigned (UBM untouched).
+    The property is about the machine's *current* parameters, so all routes must behave like `fresh`."""
     from bob.learn.em import ISVMachine, JFAMachine
 
-    ubm = gen.mk_gmm(sc["w"], sc["m"], sc["v"])
+    route = sc.get("route", "fresh")
+    rng = np.random.default_rng(12345)
+    w, m, v = (np.array(sc[k], dtype=float) for k in ("w", "m", "v"))
+    U, V, Dd = (np.array(sc[k], dtype=float) for k in ("U", "V", "Dd"))
+    other_ubm = route in ("reuse_all", "reuse_ubm")
+    other_sub = route in ("reuse_all", "reuse_subspaces")
+    m0 = m + rng.normal(size=m.shape) if other_ubm else m
+    v0 = v * rng.uniform(0.3, 3.0, size=v.shape) if other_ubm else v
+    ubm = gen.mk_gmm(w, m0, v0)
     if sc["jfa"]:
         mach = JFAMachine(sc["rU"], sc["rV"], ubm=ubm, enroll_iterations=enroll_iterations, em_iterations=em_iterations)
-        mach.V = np.array(sc["V"])
+        mach.V = V + rng.normal(size=V.shape) if other_sub else V
     else:
         mach = ISVMachine(sc["rU"], ubm=ubm, enroll_iterations=enroll_iterations, em_iterations=em_iterations)
-    mach.U = np.array(sc["U"])
-    mach.D = np.array(sc["Dd"])
+    mach.U = U + rng.normal(size=U.shape) if other_sub else U
+    mach.D = Dd * rng.uniform(0.5, 2.0, size=Dd.shape) if other_sub else Dd
+    if route != "fresh":
+        _warmup(mach, sc, rng)
+        if other_ubm:
+            mach.ubm.means = m
+            mach.ubm.variances = v
+        if other_sub:
+            if sc["jfa"]:
+                mach.V = V
+            mach.U = U
+            mach.D = Dd
     return mach
 
 
